@@ -103,26 +103,47 @@ Definition spec_path (h : heap) (frame : list (name * val)) (stack : list nat)
     end
   end.
 
-(* code defined inside a package: plain symbols resolve through the parameters and then the
+(* code defined inside a package: plain symbols and the heads of dot paths resolve through the parameters and then the
    scopes captured at definition, with no case rule; dot paths written inside obey [visible] *)
-Definition spec_body (h : heap) (params : list name) (body : fbody) (clos : list nat) (args : list val) : verdict :=
+Definition spec_body_simple (h : heap) (params : list name) (body : fbody) (clos : list nat) (args : list val) : verdict :=
   let frame := zip_params params args in
   match body with
   | BGet n => match lexical_lookup h frame clos n with Some (v, _) => Allowed h v | None => NotFound end
   | BSet n => let v := match args with a :: _ => a | [] => VNull end in
               Allowed (lexical_set h frame clos n v) v
   | BDot p => spec_path h frame clos p None
+  | BDotSet p => let v := match args with a :: _ => a | [] => VNull end in
+                 spec_path h frame clos p (Some v)
+  | BDotCall _ _ => NotCallable
+  end.
+
+Definition spec_body (h : heap) (params : list name) (body : fbody) (clos : list nat) (args : list val) : verdict :=
+  match body with
+  | BDotCall p cargs =>
+    match spec_path h (zip_params params args) clos p None with
+    | Allowed _ (VFun _ params' body' clos') => spec_body_simple h params' body' clos' (map VInt cargs)
+    | Allowed _ v => match cargs with [] => Allowed h v | _ => NotCallable end
+    | d => d
+    end
+  | _ => spec_body_simple h params body clos args
+  end.
+
+Definition spec_call (h : heap) (frame : list (name * val)) (p : list name) (args : list Z) : verdict :=
+  match spec_path h frame [0%nat] p None with
+  | Allowed _ (VFun _ params body clos) => spec_body h params body clos (map VInt args)
+  | Allowed _ v => match args with [] => Allowed h v | _ => NotCallable end
+  | d => d
   end.
 
 Definition spec_op (h : heap) (o : op) : verdict :=
   match o with
   | OpGet p => spec_path h [] [0%nat] p None
   | OpSet p z => spec_path h [] [0%nat] p (Some (VInt z))
-  | OpCall p args =>
-    match spec_path h [] [0%nat] p None with
-    | Allowed _ (VFun _ params body clos) => spec_body h params body clos (map VInt args)
-    | Allowed _ v => match args with [] => Allowed h v | _ => NotCallable end
-    | d => d
+  | OpCall p args => spec_call h [] p args
+  | OpCallVia param argsym p args =>
+    match stack_lookup h [0%nat] argsym with
+    | None => NotFound
+    | Some (v, _) => spec_call h [(param, v)] p args
     end
   end.
 
